@@ -732,6 +732,51 @@ def d4_constructors(prog, rep):
     rep.floor('constructor', 5, 'eye, diag_matrix, toeplitz, vandermonde, design')
 
 
+def _tri_all_form(prog, f, me):
+    """((outer lo, hi), (inner lo, hi), outer index term, element-test-ok) of `(lo..hi).all(|i| (lo'..hi').all(|j| self[i][j] == 0.))`, with
+    the inner bounds expressed over the outer index; None when the body is not of this form"""
+    from ..structs import subst
+    rv = f.return_values()
+    if len(rv) != 1:
+        return None
+    t = rv[0]
+
+    def all_of(t_):
+        if tag(t_) == 'call' and short(t_[1]) == 'all' and len(t_[2]) == 2 and tag(t_[2][0]) == 'range' and tag(t_[2][1]) == 'agg' and t_[2][1][1] == 'closure':
+            return t_[2][0], t_[2][1]
+        return None
+    o = all_of(t)
+    if o is None:
+        return None
+    orng, ocl = o
+    g = prog.func(ocl[2])
+    if g is None or len(g.return_values()) != 1:
+        return None
+    i_g = ('arg', 2, g.names.get(2))
+    caps = ocl[3]
+    body = subst(g.return_values()[0], {z: caps[z[1]] for z in subterms(g.return_values()[0]) if tag(z) == 'upvar' and z[1] < len(caps)})
+    body = prog.inline_closure_calls(body)
+    inn = all_of(body)
+    if inn is None:
+        return None
+    irng, icl = inn
+    h = prog.func(icl[2])
+    if h is None or len(h.return_values()) != 1:
+        return None
+    j_h = ('arg', 2, h.names.get(2))
+    caps2 = icl[3]
+    test = subst(h.return_values()[0], {z: caps2[z[1]] for z in subterms(h.return_values()[0]) if tag(z) == 'upvar' and z[1] < len(caps2)})
+    okt = tag(test) == 'bin' and test[1] == 'Eq' and _c(test[3]) == 0.0 and tag(test[2]) == 'index' and test[2][2] == j_h and \
+        tag(test[2][1]) == 'call' and short(test[2][1][1]) == 'index' and len(test[2][1][2]) == 2 and test[2][1][2][1] == i_g
+    root_ = test[2][1][2][0] if okt else None
+    if okt:
+        # the matrix indexed is self (captured by the outer closure from the method's self)
+        while tag(root_) == 'upvar' and root_[1] < len(caps):
+            root_ = caps[root_[1]]
+        okt = root_ == me
+    return (orng[1], orng[2]), (irng[1], irng[2]), i_g, okt
+
+
 def _iter_over(it, x):
     while tag(it) == 'call' and short(it[1]) in ('iter', 'into_iter'):
         it = it[2][0]
@@ -1131,7 +1176,25 @@ def d7_predicates(prog, rep):
                                 and cn[2][1][2] == (me, i) and _c(cn[3]) == 0.0:
                             okt = True
                 ok = okr and okt
-        (rep.ok if ok else rep.viol)('predicate', key, '%s tests self[i][j] != 0 over the strict %s part' % (name, 'lower' if part == 'below' else 'upper') if ok else '%s does not range over the strict %s-diagonal part' % (name, part), site_of(f.body))
+        read = len(loops) == 2 and bool(ix.item_range(loops[0]['item'])) and bool(ix.item_range(loops[1]['item']))
+        if not read:
+            # quantifier form: (0..nrows).all(|i| (lo..hi).all(|j| self[i][j] == 0.)), the inner closure directly or through a local closure
+            qf = _tri_all_form(prog, f, me)
+            if qf is not None:
+                read = True
+                (olo, ohi), (ilo, ihi), i_, okt = qf
+                if part == 'below':
+                    okr = pconst(poly(ilo)) == 0 and peq(poly(ihi), poly(i_))
+                else:
+                    okr = peq(poly(ilo), padd(poly(i_), {(): 1})) and peq(poly(ihi), poly(('field', me, 2, 'usize')))
+                okr = okr and pconst(poly(olo)) == 0 and peq(poly(ohi), poly(('field', me, 1, 'usize')))
+                ok = okr and okt
+        if ok:
+            rep.ok('predicate', key, '%s tests self[i][j] != 0 over the strict %s part' % (name, 'lower' if part == 'below' else 'upper'))
+        elif read:
+            rep.viol('predicate', key, '%s does not range over the strict %s-diagonal part' % (name, part), site_of(f.body))
+        else:
+            rep.undecided('predicate', key, 'index set of %s not read (neither two counting loops nor nested all(..) over ranges)' % name, site_of(f.body), proof=False)
     # close_to: sign awareness
     k = 'linalg::array::vec::Vector::close_to'
     f = prog.func(k)
